@@ -33,8 +33,9 @@ type loopOpts struct {
 	constCurve    bool // constant temperature (C10: request unchanged)
 	rpmWin        []int
 	neverSpinP    float64
-	rpmSideFaults bool // third-party PWM writes and PWM read faults seen by the RPM monitor
-	stableAlgos   bool // only algorithms documented to settle (direct, rate-limited, default PID)
+	unreadableP   float64 // share of map-less fans whose PWM file can never be read
+	rpmSideFaults bool    // third-party PWM writes and PWM read faults seen by the RPM monitor
+	stableAlgos   bool    // only algorithms documented to settle (direct, rate-limited, default PID)
 }
 
 var absurdTemps = []int{-273000, -50000, -1, 0, 1, 19999, 20000, 20001, 35000, 50000, 64999, 79999, 80000, 80001, 120000, 2147483647, -2147483648, 9007199254740993, -9007199254740993}
@@ -232,7 +233,19 @@ func genLoop(family string, seed uint64, tier string, o loopOpts) *world.Scenari
 			}
 		}
 		if kind == "hwmon" {
-			preseedRpmCurve(sc, f.ID, linearRpmCurve(curveStart, curveMaxEff, f.Plant.MaxRpm))
+			data := linearRpmCurve(curveStart, curveMaxEff, f.Plant.MaxRpm)
+			if dr := kernel.NewRand(seed, "loop.dropout."+f.ID); curveMaxEff < 250 && dr.Bool(0.12) {
+				// the stored RPM curve has a tachometer drop-out on its plateau: one sample above the PWM that
+				// reaches the highest RPM reads 0 (limits are unaffected: lowest PWM with RPM > 0, lowest PWM
+				// reaching the highest RPM)
+				data[dr.Range(curveMaxEff+1, 255)] = 0
+			}
+			preseedRpmCurve(sc, f.ID, data)
+		}
+		if ur := kernel.NewRand(seed, "loop.unreadable."+f.ID); o.unreadableP > 0 && f.PwmMap == nil && f.Driver.Quant == "" && kind != "cmd" && ur.Bool(o.unreadableP) {
+			// a fan whose PWM value can never be read back (every read of the file fails): fan2go builds its
+			// default 1:1 map for it and works with the value it believes to have set
+			sc.Faults = append(sc.Faults, world.FaultSpec{Op: "read", Target: "fan:" + f.ID + ":pwm", Nth: 0, Count: 1 << 30, Kind: "eio"})
 		}
 		if f.PwmMap != nil && kernel.NewRand(seed, "loop.stalemap."+f.ID).Bool(0.3) {
 			// the database still holds a PWM map of this fan from an earlier run (before the user wrote a
@@ -367,6 +380,7 @@ type loopOracle struct {
 }
 
 type loopFan struct {
+	unreadable   bool   // the PWM file of this fan can never be read (by the scenario's fault plan)
 	prevClean    *Cycle // previous cycle if it was observable
 	obsRaises    int    // raises seen in the request sequence itself
 	polluted     bool
@@ -403,6 +417,11 @@ func newLoopOracle(st *stage.Stage, res *check.Result, props ...string) *loopOra
 	for i := range st.Sc.Fans {
 		f := &st.Sc.Fans[i]
 		lf := &loopFan{spec: f, m: mapInForce(f), zeroSince: -1}
+		for _, ft := range st.Sc.Faults {
+			if ft.Op == "read" && ft.Target == "fan:"+f.ID+":pwm" && ft.Count >= 1<<20 {
+				lf.unreadable = true
+			}
+		}
 		lf.lo, lf.hi = refFanLimits(f, seededCurve(st.Sc, f.ID))
 		lf.allowed = refmodel.AllowedWrites(lf.m, lf.lo, lf.hi)
 		lf.identity = true
@@ -481,7 +500,7 @@ func (o *loopOracle) onCycle(c *Cycle) {
 		}
 	}
 	for _, rd := range c.PwmReads {
-		if rd.Err != "" || rd.Fault != "" {
+		if (rd.Err != "" || rd.Fault != "") && !lf.unreadable {
 			faulty = true
 		}
 	}
@@ -756,7 +775,7 @@ func init() {
 	}})
 	register(&Family{Name: "c01driven", Run: runC01Driven, Gen: genC01Driven})
 	register(&Family{Name: "c02", Run: runLoop("C02"), Gen: func(seed uint64, tier string) *world.Scenario {
-		return genLoop("c02", seed, tier, loopOpts{kinds: []string{"hwmon", "hwmon", "file"}, neverStopP: 1, stallP: 0.7, neverSpinP: 0.15, identityOnly: true, horizonLo: 30, horizonHi: 90, rpmWin: []int{1, 2, 5}})
+		return genLoop("c02", seed, tier, loopOpts{kinds: []string{"hwmon", "hwmon", "file"}, neverStopP: 1, stallP: 0.7, neverSpinP: 0.15, identityOnly: true, horizonLo: 30, horizonHi: 90, rpmWin: []int{1, 2, 5}, unreadableP: 0.25})
 	}})
 	register(&Family{Name: "c02side", Run: runLoop("C02"), Gen: func(seed uint64, tier string) *world.Scenario {
 		return genLoop("c02side", seed, tier, loopOpts{kinds: []string{"hwmon", "hwmon", "file"}, neverStopP: 1, stallP: 0.5, neverSpinP: 0.05, identityOnly: true, horizonLo: 20, horizonHi: 50, rpmWin: []int{1, 2, 5}, rpmSideFaults: true})
